@@ -29,11 +29,13 @@ import (
 //         op block <now> <ok|panic>                          ends the block
 //         lobs <n> <records> <m> <totals> <module balance>x3 <auction proceeds>x3 <bidder balances>
 // "auction proceeds" = for every running Dutch auction TargetDebt - outstanding debt: debt coins the
-// module keeps for the auction until it closes; they are not limit-bid custody.
+// module keeps for the auction until it closes, plus the penalties of closed external auctions that
+// the module keeps as booked fees (AuctionLimitBidFeeDataExternal, only ever added to); neither is
+// limit-bid custody.
 
 const (
 	c11Col     = "ucol"
-	c11NCorpus = 3
+	c11NCorpus = 8
 )
 
 type c11LKey struct {
@@ -159,6 +161,11 @@ func (l *c11Lim) observe() {
 			}
 		}
 	}
+	for d, asset := range []uint64{f.harbor, f.cmst, f.oth} {
+		if fee, found := a.NewaucKeeper.GetAuctionLimitBidFeeDataExternal(ctx, asset); found {
+			proc[d] = proc[d].Add(fee.Amount)
+		}
+	}
 	for d := 0; d < 3; d++ {
 		fmt.Fprintf(&bb, " %s", proc[d])
 	}
@@ -254,7 +261,8 @@ func (l *c11Lim) block(now int64) {
 }
 
 // ------------------------------------------------------------------------------------------------
-// corpus: the witnesses of the repaired defects
+// corpus: the witnesses of the repaired defects (0-2) and the automatic-fill scenarios that the thorough
+// tier found or that belong to C10 (3-7)
 func c11LimitCorpus(t *testing.T, f *c11Fix, tr *tracer, ci int) {
 	rich := [][3]int64{{10000000, 10000000, 10000000}, {10000000, 10000000, 10000000}}
 	zero := sdk.ZeroDec()
@@ -283,6 +291,69 @@ func c11LimitCorpus(t *testing.T, f *c11Fix, tr *tracer, ci int) {
 		l.block(c11T0 + 2550) // discount 5%: bidder 0 is filled, exactly
 		l.block(c11T0 + 2950)
 		l.cancel(1, l.col, f.harbor, 9)
+	case 3: // thorough-tier case 13235 (seed 1): a partial fill, then a deposit that meets the rest of the
+		// debt when the collateral has run short: the bid is cut down to the value of the left-over
+		// collateral (104 800 < the penalty 120 000 the module keeps as fees), the app reserve pays the
+		// rest into the module, the auction closes, the record is charged in full
+		l := c11NewLim(t, f, tr, ci, 2, sdk.MustNewDecFromStr("0.005"), zero, rich, [3]int64{5000000, 0, 0},
+			[]c11AucSpec{{debtAsset: f.harbor, debt: 3000000, fee: 120000, collateral: 1500000, resrv: 10000000}})
+		l.deposit(0, l.col, f.harbor, 9, 0, sdk.NewInt(1250000))
+		l.block(c11T0 + 2968)
+		l.deposit(0, l.col, f.harbor, 9, 0, sdk.NewInt(1000000))
+		l.block(c11T0 + 2968)
+		l.deposit(0, l.col, f.harbor, 9, 0, sdk.NewInt(1000000))
+		l.block(c11T0 + 2970)
+		l.cancel(0, l.col, f.harbor, 9)
+	case 4: // a record above the debt of an auction whose collateral (1 000 000 at 0.906) is worth less than
+		// the debt 1 120 000: the bid is cut to 906 000, the reserve pays 214 000, the record is charged
+		// 1 120 000 (the settlement spends less than the record is charged: C10's concern);
+		// then the same auction with a reserve that is too small: the closure fails atomically
+		l := c11NewLim(t, f, tr, ci, 2, zero, zero, rich, [3]int64{0, 0, 0},
+			[]c11AucSpec{{debtAsset: f.harbor, debt: 1000000, fee: 120000, collateral: 1000000, resrv: 10000000},
+				{debtAsset: f.cmst, debt: 1000000, fee: 120000, collateral: 1000000, resrv: 213999}})
+		l.deposit(0, l.col, f.harbor, 9, 0, sdk.NewInt(3000000))
+		l.deposit(1, l.col, f.cmst, 9, 1, sdk.NewInt(3000000))
+		l.block(c11T0 + 2940)
+		l.block(c11T0 + 2941)
+		l.withdraw(0, l.col, f.harbor, 9, 0, sdk.NewInt(1880001))
+		l.withdraw(0, l.col, f.harbor, 9, 0, sdk.NewInt(1880000))
+		l.cancel(1, l.col, f.cmst, 9)
+	case 5: // two records below the debt in one closure: LimitOrderBid bids with the auction it read before
+		// the loop, the second bid overwrites the first one's auction update (debt 500 003 - 1, not - 1000);
+		// both records are charged in full
+		l := c11NewLim(t, f, tr, ci, 2, zero, zero, rich, [3]int64{0, 0, 0},
+			[]c11AucSpec{{debtAsset: f.harbor, debt: 500003, fee: 0, collateral: 1000006}})
+		l.deposit(0, l.col, f.harbor, 5, 0, sdk.NewInt(1))
+		l.deposit(1, l.col, f.harbor, 5, 0, sdk.NewInt(999))
+		l.block(c11T0 + 2550)
+		l.deposit(0, l.col, f.harbor, 6, 0, sdk.NewInt(500002))
+		l.block(c11T0 + 2650)
+	case 6: // a record above the debt followed by another record of the premium: the first bid closes the
+		// auction, the second one fails on the closed auction, the closure is rolled back -- every block,
+		// until the second depositor leaves
+		l := c11NewLim(t, f, tr, ci, 2, zero, zero, rich, [3]int64{0, 0, 0},
+			[]c11AucSpec{{debtAsset: f.harbor, debt: 1000000, fee: 0, collateral: 2000000}})
+		l.deposit(0, l.col, f.harbor, 5, 0, sdk.NewInt(3000000))
+		l.deposit(1, l.col, f.harbor, 5, 0, sdk.NewInt(250000))
+		l.block(c11T0 + 2550)
+		l.block(c11T0 + 2560)
+		l.block(c11T0 + 2570)
+		l.cancel(1, l.col, f.harbor, 5)
+		l.block(c11T0 + 2580)
+		l.cancel(0, l.col, f.harbor, 5)
+	case 7: // case 3 with an app reserve that cannot cover the shortfall (1 765 200): the closing closure
+		// fails atomically (before 4c7737c it went through and paid the initiator out of the module's
+		// other coins: the base and bidder 1's deposit)
+		l := c11NewLim(t, f, tr, ci, 2, zero, zero, rich, [3]int64{5000000, 0, 0},
+			[]c11AucSpec{{debtAsset: f.harbor, debt: 3000000, fee: 120000, collateral: 1500000, resrv: 1000}})
+		l.deposit(0, l.col, f.harbor, 9, 0, sdk.NewInt(1250000))
+		l.deposit(1, l.col, f.harbor, 0, 0, sdk.NewInt(2000000))
+		l.block(c11T0 + 2968)
+		l.deposit(0, l.col, f.harbor, 9, 0, sdk.NewInt(1000000))
+		l.block(c11T0 + 2968)
+		l.block(c11T0 + 2969)
+		l.cancel(0, l.col, f.harbor, 9)
+		l.cancel(1, l.col, f.harbor, 0)
 	}
 }
 
@@ -312,25 +383,10 @@ func c11LimitCase(t *testing.T, f *c11Fix, tr *tracer, r *rng, ci int) {
 		s.resrv = r.pickI(0, 0, 10000000, 1000)
 		aucs = append(aucs, s)
 	}
-	// an auction whose collateral can run short closes on the app reserve: either there is no reserve
-	// record (the closure fails and is rolled back) or the reserve covers the shortfall.  A reserve
-	// that exists but is too small is C10's finding C10-F2 (the close pays the full target out of
-	// the module's other coins) and is not generated here.
-	for _, asset := range []uint64{f.harbor, f.cmst} {
-		short, total, first := false, int64(0), -1
-		for i, s := range aucs {
-			if s.debtAsset == asset {
-				if first < 0 {
-					first = i
-				}
-				short = short || s.collateral < 2*(s.debt+s.fee)
-				total += s.resrv
-			}
-		}
-		if short && total > 0 && total < 10000000 {
-			aucs[first].resrv = 10000000
-		}
-	}
+	// an auction whose collateral can run short closes on the app reserve: no reserve record, or a
+	// reserve smaller than the shortfall (since 4c7737c WithdrawAppReserveFundsFn returns an error
+	// then): the closure fails and is rolled back; a reserve that covers the shortfall pays the
+	// difference into the module and the bid is cut down to the value of the left-over collateral.
 	l := c11NewLim(t, f, tr, ci, nb, closing, withdrawal, funding, base, aucs)
 	ids := []uint64{f.harbor, f.cmst, f.oth}
 	nops := 8 + r.intn(25)
